@@ -23,7 +23,51 @@ CONFIGS = {
     "plain": dict(cc="gcc", cflags="-O2 -g -fno-omit-frame-pointer", ld=""),
     "plain0": dict(cc="gcc", cflags="-O0 -g -fno-omit-frame-pointer", ld=""),
     "tsan": dict(cc="gcc", cflags="-O1 -g -fno-omit-frame-pointer -fsanitize=thread", ld="-fsanitize=thread"),
+    # uninstrumented build run under valgrind memcheck: the one tool here that sees reads of uninitialised memory
+    "memcheck": dict(cc="gcc", cflags="-O1 -g -fno-omit-frame-pointer", ld=""),
 }
+
+
+def memcheck_wrapper(outdir):
+    return ["valgrind", "-q", "--error-exitcode=97", "--leak-check=no", "--num-callers=24", "--child-silent-after-fork=no",
+            "--suppressions=" + os.path.join(VERIF, "supp", "memcheck.supp"), "--log-file=" + os.path.join(outdir, "memcheck.%p")]
+
+
+MEMCHECK_KINDS = [
+    (r"Conditional jump or move depends on uninitialised value", "uninitialised-value-decides-a-branch"),
+    (r"Use of uninitialised value of size", "uninitialised-value-used-as-address"),
+    (r"Syscall param .* uninitialised", "uninitialised-bytes-passed-to-the-kernel"),
+    (r"Invalid read of size", "invalid-read"),
+    (r"Invalid write of size", "invalid-write"),
+    (r"Invalid free\(\)|Mismatched free", "invalid-free"),
+    (r"Source and destination overlap", "overlapping-copy"),
+    (r"Argument '\w+' of function \w+ has a fishy", "fishy-size-argument"),
+    (r"Process terminating with default action of signal (\d+)", "fatal-signal"),
+]
+
+
+def classify_memcheck(text, repo):
+    """-> list of (kind, site, harness_only) for every error block of a memcheck log"""
+    out = []
+    srcs = set(os.path.basename(f) for f in glob.glob(os.path.join(repo, "src", "*.c"))) | {"Cello.h"}
+    blocks = re.split(r"\n==\d+== \n", "\n" + text)
+    for b in blocks:
+        kind = None
+        for pat, name in MEMCHECK_KINDS:
+            if re.search(pat, b):
+                kind = name
+                break
+        if not kind or kind == "fatal-signal":
+            continue
+        frames = re.findall(r"(?:at|by) 0x[0-9A-Fa-f]+: (\S+) \((?:in )?([^:)]+)(?::(\d+))?\)", b)
+        site = None
+        for fn, fil, _ in frames:
+            if os.path.basename(fil) in srcs:
+                site = fn
+                break
+        harness_only = site is None
+        out.append((kind, site or "?", harness_only, b.strip()[:1500]))
+    return out
 BASE_CFLAGS = "-std=gnu99 -DCELLO_NSTRACE -Wno-unused -Wno-unused-value"
 
 
@@ -194,7 +238,7 @@ SIGNAMES = {int(v): k for k, v in signal.__dict__.items() if k.startswith("SIG")
 
 
 def run_shards(exe, outdir0, nshards, cases, seed, thorough=False, env_fn=None, timeout=900, extra_args=(),
-               prop="C00", max_restarts=6, budget=None, only_shard=None, stack_mb=None, first_args=()):
+               prop="C00", max_restarts=6, budget=None, only_shard=None, stack_mb=None, first_args=(), wrapper=None):
     """Run the harness in nshards processes; restart a shard after the case that killed it."""
     os.makedirs(outdir0, exist_ok=True)
     results = [ShardResult(i) for i in range(nshards)]
@@ -212,7 +256,7 @@ def run_shards(exe, outdir0, nshards, cases, seed, thorough=False, env_fn=None, 
         os.makedirs(outdir, exist_ok=True)
         env = env_fn(outdir) if env_fn else dict(os.environ)
         while True:
-            args = [exe] + list(first_args) + ["--out", outdir, "--seed", str(seed), "--shard", "%d/%d" % (i, nshards),
+            args = (wrapper(outdir) if wrapper else []) + [exe] + list(first_args) + ["--out", outdir, "--seed", str(seed), "--shard", "%d/%d" % (i, nshards),
                     "--cases", str(cases)] + list(extra_args)
             if thorough:
                 args.append("--thorough")
@@ -232,6 +276,22 @@ def run_shards(exe, outdir0, nshards, cases, seed, thorough=False, env_fn=None, 
             sr2 = ShardResult(i)
             _parse_res(res, sr2)
             if rc == 0 and sr2.done:
+                break
+            if wrapper and rc == 97 and sr2.done:
+                # memcheck: the run went to its end; every error block is in the logs
+                body = ""
+                for lf in sorted(glob.glob(os.path.join(outdir, "memcheck.*"))):
+                    body += open(lf, errors="replace").read() + "\n"
+                seen_mc = set()
+                for kind, site, harness_only, text in classify_memcheck(body, REPO):
+                    if harness_only:
+                        raise Inconclusive("memcheck error with no frame in the library (harness bug, not a verdict): " + text[:600])
+                    if (kind, site) in seen_mc:
+                        continue
+                    seen_mc.add((kind, site))
+                    sr.crashes.append(("%s:memcheck:%s:%s" % (prop, kind, site), "valgrind memcheck: " + " / ".join(text.splitlines()[:8]), None, "memcheck"))
+                if not seen_mc:
+                    raise Inconclusive("valgrind exit code 97 but no error block could be parsed: " + body[-800:])
                 break
             # died: attribute to the case in the progress file
             prog = ""
@@ -307,7 +367,9 @@ def run_shards(exe, outdir0, nshards, cases, seed, thorough=False, env_fn=None, 
                 else:
                     raise Inconclusive("harness shard %d exited %s without DONE; stderr: %s" % (i, rc, err[-2000:]))
             sr.crashes.append((key, text, cidx, label))
-            restarts += 1
+            # a hang costs a whole CPU budget (a stall 45 s of wall clock): after two of them in one shard the verdict
+            # is in, further restarts only cost time
+            restarts += 3 if (":hang:" in key or ":stall:" in key) else 1
             if cidx is None or restarts > max_restarts:
                 break
             start_from = cidx + 1 if cidx >= 0 else 0
